@@ -2,6 +2,7 @@ package main
 
 import (
 	"go/ast"
+	"go/token"
 	"go/types"
 	"strings"
 )
@@ -591,7 +592,21 @@ func rulesC01(c *Ctx) {
 		for i, st := range sw.Body.List {
 			cc := st.(*ast.CaseClause)
 			seen := map[types.Object]bool{}
+			// `case a, b:` and `case a || b:` are the same arm
+			var alts []ast.Expr
+			var flatOr func(e ast.Expr)
+			flatOr = func(e ast.Expr) {
+				if b, ok := ast.Unparen(e).(*ast.BinaryExpr); ok && b.Op == token.LOR {
+					flatOr(b.X)
+					flatOr(b.Y)
+					return
+				}
+				alts = append(alts, ast.Unparen(e))
+			}
 			for _, e := range cc.List {
+				flatOr(e)
+			}
+			for _, e := range alts {
 				if ce, ok := ast.Unparen(e).(*ast.CallExpr); ok && call.IsCallTo(ce, isFn) && len(ce.Args) == 2 {
 					seen[call.ObjOf(ce.Args[1])] = true
 				}
